@@ -30,6 +30,11 @@ pub enum Op {
     PlainCommit { batch: BatchSpec },
     Rollback(u8),
     Chain { ov: u8, probe: Probe, pick: u16 },
+    /// a session on the complete live chain of `parent` (out of range = on the committed base) is finished and
+    /// KEPT as a finished session (not turned into an overlay) ...
+    Prepare { parent: u8, batch: BatchSpec },
+    /// ... and later committed directly
+    CommitPrepared { idx: u8, nonblocking: bool },
 }
 
 #[derive(Clone, Debug, Serialize, Deserialize, PartialEq, Eq)]
@@ -62,6 +67,17 @@ struct Ov {
 
 fn v(step: usize, m: impl Into<String>) -> Violation {
     Violation { step, msg: m.into() }
+}
+
+/// A finished session kept for a later direct commit.
+struct Prepared {
+    parent: Option<usize>,
+    map: Map,
+    batch: Vec<(Key, MOp)>,
+    base_root: [u8; 32],
+    handle: Option<nomt::FinishedSession>,
+    /// store version at which the root of its chain was created (for parentless ones: at which it was prepared)
+    anchor_version: u64,
 }
 
 struct World {
@@ -127,6 +143,7 @@ fn run_case<H: HK>(case: &C11Case, ctx: &Ctx) -> Result<CaseInfo, Violation> {
     let mut budget = gen::Budget { left: 2 << 20 };
     let mut ver = 9000u32;
     let mut gray_seen = false;
+    let mut prepared: Vec<Prepared> = Vec::new();
 
     for (oi, op) in case.ops.iter().enumerate() {
         let step = n0 + oi;
@@ -200,6 +217,107 @@ fn run_case<H: HK>(case: &C11Case, ctx: &Ctx) -> Result<CaseInfo, Violation> {
                     committed_version: 0,
                 });
                 info.bump("overlays_created");
+            }
+            Op::Prepare { parent, batch } => {
+                let live = w.live();
+                // 254 = the newest live overlay
+                let par: Option<usize> = if *parent == 254 { live.last().cloned() } else { live.get(*parent as usize).cloned() };
+                if let Some(p) = par {
+                    if w.chain(p).is_none() || !w.attached(p) {
+                        continue;
+                    }
+                }
+                let view: Map = par.map(|p| w.ovs[p].map.clone()).unwrap_or_else(|| r.model.cur.clone());
+                let mut spec = batch.clone();
+                if let Some(p) = par {
+                    // prefer keys the ancestor overlays touched (pages first created inside an overlay)
+                    let pb = &w.ovs[p].batch;
+                    if !pb.is_empty() {
+                        for e in spec.entries.iter_mut() {
+                            if let KeySel::Existing(i) = e.key {
+                                if i % 2 == 0 {
+                                    e.key = KeySel::Literal(hex::encode(pb[pick(i, pb.len())].0));
+                                }
+                            }
+                        }
+                    }
+                }
+                let b = gen::resolve_batch(base.salt ^ oi as u64, &spec, &view, ver, &mut budget);
+                let chain = par.map(|p| w.chain(p).unwrap()).unwrap_or_default();
+                let refs: Vec<&Overlay> = chain.iter().map(|i| w.ovs[*i].handle.as_ref().unwrap()).collect();
+                let sess = r.db().begin(&refs, false).map_err(|f| v(step, format!("session on a complete live chain refused: {}", f.sig())))?;
+                let fin = r.db().finish(sess, &view, &b, &CommitOpts::default()).map_err(|f| v(step, f.sig()))?;
+                let map = crate::model::apply(H::KIND, &view, &b);
+                if fin.root != root_of(H::KIND, &map) {
+                    return Err(v(step, format!("FinishedSession::root of a session on a chain of {} overlays differs from the reference root", chain.len())));
+                }
+                let anchor_version = match par {
+                    None => w.store_version,
+                    Some(p) => w.ovs[p].anchor_version,
+                };
+                prepared.push(Prepared { parent: par, map, batch: b, base_root: fin.prev_root, handle: Some(fin.fs), anchor_version });
+                info.bump("sessions_prepared_for_direct_commit");
+                if par.is_some() {
+                    info.bump("sessions_prepared_on_overlay_chains");
+                }
+            }
+            Op::CommitPrepared { idx, nonblocking } => {
+                let avail: Vec<usize> = (0..prepared.len()).filter(|i| prepared[*i].handle.is_some()).collect();
+                if avail.is_empty() {
+                    continue;
+                }
+                let pi = avail[*idx as usize % avail.len()];
+                let fs = prepared[pi].handle.take().unwrap();
+                let cur_root = root_of(H::KIND, &r.model.cur);
+                let root_current = prepared[pi].base_root == cur_root;
+                // the base is "the current state" when its whole ancestor chain has been committed, in order, and nothing else since
+                let must_ok = match prepared[pi].parent {
+                    None => prepared[pi].anchor_version == w.store_version,
+                    Some(p) => w.ovs[p].status == St::Committed && w.last_committed == Some(p) && w.ovs[p].committed_version == w.store_version,
+                };
+                let (pre_map, pre_seqn) = (r.model.cur.clone(), r.model.seqn);
+                let res = if *nonblocking { r.db().try_commit_finished(fs).map(|x| x.is_none()) } else { r.db().commit_finished(fs).map(|_| true) };
+                let what = format!(
+                    "direct commit of a finished session prepared on {}",
+                    if prepared[pi].parent.is_some() { "an overlay chain (all of which has been committed since)" } else { "the committed state" }
+                );
+                match res {
+                    Err(f) if f.kind == FailKind::Panic => return Err(v(step, format!("{what} panicked: {}", f.msg))),
+                    Ok(false) => return Err(v(step, format!("{what}: try_commit_nonblocking handed the changeset back although no session was alive"))),
+                    Ok(true) => {
+                        if !root_current {
+                            return Err(v(step, format!("{what} was accepted although its base is no longer the current state")));
+                        }
+                        if !must_ok {
+                            info.bump("gray_zone_direct_commits_accepted");
+                        }
+                        if r.model.cur.clone() != pre_map {
+                            unreachable!();
+                        }
+                        r.model.commit(&prepared[pi].batch);
+                        if root_of(H::KIND, &r.model.cur) != root_of(H::KIND, &prepared[pi].map) {
+                            // same base root but a different base map cannot happen with a collision-free hash
+                            return Err(v(step, "INFRA: model disagreement about the prepared session's base".to_string()));
+                        }
+                        w.store_version += 1;
+                        w.last_committed = None;
+                        info.bump("direct_commits_of_prepared_sessions_accepted");
+                        if prepared[pi].parent.is_some() {
+                            info.bump("direct_commits_after_overlay_chain_committed");
+                        }
+                    }
+                    Err(f) => {
+                        if must_ok {
+                            return Err(v(step, format!("{what} was rejected although its base is the current state: {}", f.sig())));
+                        }
+                        info.bump("direct_commits_of_prepared_sessions_rejected");
+                        if r.db().root() != cur_root || r.db().seqn() != pre_seqn || r.db().nomt.is_poisoned() {
+                            return Err(v(step, format!("a rejected {what} changed root, seqn or poisoned the handle")));
+                        }
+                        let keys: Vec<Key> = pre_map.keys().cloned().collect();
+                        hist::check_values(r.db(), &pre_map, &keys, false, step).map_err(|e| v(step, format!("after a rejected {what}: {}", e.msg)))?;
+                    }
+                }
             }
             Op::Drop { ov } => {
                 let live = w.live();
@@ -451,7 +569,7 @@ impl Check for C11 {
     fn rule() -> String {
         "overlay TREES over a committed base (proptest history of 1..3 commits; rollback on in 60%): generated operation sequences over {new overlay on any live overlay or on the base (session opened with \
          the complete live chain; batches may delete / blindly rewrite keys that exist only in ancestor overlays; >= 25 clustered keys create fresh merkle pages inside overlays), commit overlay (blocking / \
-         non-blocking), drop overlay, plain commit, rollback(n), chain probe}. Oracle: (a) sessions on a valid chain read, prove (C05 oracle against the overlay root) and compute roots (reference trie) as if \
+         non-blocking), drop overlay, plain commit, rollback(n), chain probe, prepare (a session on a live chain or on the base is finished and KEPT as a finished session), commit-prepared (that finished session is committed directly, typically after its ancestor overlays have been committed: must succeed iff everything it was built on, and nothing else, has been committed in order; must fail iff the root differs; otherwise either, exact)}. Oracle: (a) sessions on a valid chain read, prove (C05 oracle against the overlay root) and compute roots (reference trie) as if \
          the chain were committed; (b) SessionParams::overlay is accepted iff the supplied list is exactly the live chain down to the first committed ancestor - probes: exact, missing middle, missing oldest, \
          sibling instead of ancestor, wrong order, extra non-ancestor appended, ancestor dropped, ancestor consumed by a rejected commit; (c) an overlay commit must succeed iff its parent is the most recent \
          commit (or it has none and nothing was committed since its creation) and must fail iff the parent is uncommitted or the base moved; rejected commits change nothing; (d) after the sequence the \
@@ -469,6 +587,8 @@ impl Check for C11 {
             2 => (0u8..5).prop_map(|ov| Op::Drop { ov }),
             1 => batch().prop_map(|batch| Op::PlainCommit { batch }),
             1 => (1u8..3).prop_map(Op::Rollback),
+            2 => (0u8..6, batch()).prop_map(|(parent, batch)| Op::Prepare { parent, batch }),
+            2 => (0u8..4, any::<bool>()).prop_map(|(idx, nonblocking)| Op::CommitPrepared { idx, nonblocking }),
             6 => (
                 0u8..5,
                 prop_oneof![
@@ -498,8 +618,22 @@ impl Check for C11 {
             }),
             prop::collection::vec(op, 2..=tier.pick(14, 24)),
             any::<bool>(),
+            // forced shape (1 case in 5): overlay A on the base; a session on [A] finished and kept; A committed; the kept
+            // session committed directly - its pages may have been created inside A (shared pending bucket)
+            prop::option::weighted(0.2, (batch(), batch(), any::<bool>())),
         )
-            .prop_map(|(base, ops, reopen_before_probe)| C11Case { base, ops, reopen_before_probe })
+            .prop_map(|(base, mut ops, reopen_before_probe, forced)| {
+                if let Some((b1, b2, nonblocking)) = forced {
+                    let head = vec![
+                        Op::New { parent: 255, batch: b1 },
+                        Op::Prepare { parent: 254, batch: b2 },
+                        Op::Commit { ov: 0, nonblocking: false },
+                        Op::CommitPrepared { idx: 0, nonblocking },
+                    ];
+                    ops.splice(0..0, head);
+                }
+                C11Case { base, ops, reopen_before_probe }
+            })
             .boxed()
     }
     fn run(case: &C11Case, ctx: &Ctx) -> Result<CaseInfo, Violation> {
@@ -519,6 +653,8 @@ impl Check for C11 {
                 Op::PlainCommit { .. } => "PlainCommit".into(),
                 Op::Rollback(n) => format!("RB({n})"),
                 Op::Chain { ov, probe, .. } => format!("Chain({ov},{probe:?})"),
+                Op::Prepare { parent, batch } => format!("Prepare(on {parent}, {}e)", batch.entries.len()),
+                Op::CommitPrepared { idx, nonblocking } => format!("CommitPrepared({idx}{})", if *nonblocking { ",nb" } else { "" }),
             })
             .collect();
         format!("base[{}] ops {:?} reopen_before_probe={}", case.base.brief(), ops, case.reopen_before_probe)
